@@ -27,7 +27,7 @@ pub fn prop() -> Prop {
 }
 
 fn opts() -> RunOpts {
-    RunOpts { budget: Some(10_000), ledger: false, trace: false }
+    RunOpts { budget: Some(10_000), ledger: false, trace: false, render: true }
 }
 
 pub fn lattice(tier: Tier, seed: u64) -> Vec<i64> {
